@@ -150,4 +150,9 @@ for every skipped index in `xmssFastUpdate`). -/
 def step (h : Nat) (s : St α) (idx : Nat) : St α :=
   bdsTreeHashUpdate o h ((h-K) >>> 1) (bdsRound o h s idx)
 
+/-- `n` consecutive traversal steps for indices `j, j+1, …` (the loop of `xmssFastUpdate`). -/
+def fastForward (h : Nat) : Nat → Nat → St α → St α
+  | 0, _, s => s
+  | n+1, j, s => fastForward h n (j+1) (step o h s j)
+
 end Qrl.Bds
